@@ -205,7 +205,7 @@ class Run:
 
     def require_kinds(self, *kinds):
         for k in kinds:
-            if self.kinds.get(k, 0) == 0:
+            if sum(self.kinds.get(a, 0) for a in k.split("|")) == 0:
                 raise MachineryError("vacuity guard: no event of kind %s was validated" % k)
 
     # ---- verdict --------------------------------------------------------------------------------
